@@ -226,3 +226,16 @@ Qed.
 Theorem C03_break_while_waiting_counted_twice_refuted :
   valid4 ex_Xw XS0 ex_Pw ex_Sw = [] /\ valid4 ex_Xw XS0 ex_Pw ex_Sw_twice = [RStatWaiting 0; RStatCost 0] /\ 20 + 5 + 20 + 5 <> 45.
 Proof. exact ex_required_break_waiting. Qed.
+
+(* VICINITY CLUSTERING: for a tour with a clustered stop the replay (ValidX.replay_tour_cl) follows the driver through every stop
+   (parking, forward commute from where he is, service, backward commute: RParking / RCommute / RStopDeparture), checks every
+   leg between consecutive STOP locations on the reported departure and cumulative distance of the stop before it - sound and
+   complete for the declarative statement - the loads and the statistic (commuting / parking parts included) *)
+Theorem C03_cluster_legs_checker_sound_complete : forall P k t, outer_viol P k t = [] <-> LegsReplayed P t.
+Proof. exact outer_viol_nil. Qed.
+
+(* non-vacuity / witness: the clustered example document is replayed exactly; with the member's forward commute starting at
+   another location than where the driver is the verdict is exactly [RCommute 0 2] *)
+Theorem C03_nonvacuous_cluster :
+  valid4 ex_Xc ex_XSc ex_Pc ex_Sc = [] /\ replay4 ex_Xc ex_XSc_bad ex_Pc ex_Sc = [RCommute 0 2].
+Proof. exact (conj (proj1 ex_cluster) (proj1 (proj2 (proj2 ex_cluster)))). Qed.
